@@ -26,7 +26,7 @@ MUTATIONS = [
      [], "no-op (control: must NOT fire)"),
     ("M05", "stackscope/_lowlevel.py", "        if code[offs] == op[\"CACHE\"] and offs >= 2 and code[offs - 2] == op[\"SEND\"]:", "        if False:",
      ["C02"], "revert F1 (3.12 running aexit)"),
-    ("M06", "stackscope/_lowlevel.py", "                    and prev.opname not in no_fallthrough\n", "                    and prev.opname not in no_fallthrough and False\n",
+    ("M06", "stackscope/_lowlevel.py", "                and prev.opname not in no_fallthrough\n", "                and prev.opname not in no_fallthrough and False\n",
      ["C01", "C02", "C20"], "F2 repair: ignore fall-through predecessors"),
     ("M07", "stackscope/_lowlevel.py", "        if args.args:\n            ret[-1].obj = args.locals[args.args[0]]", "        if False:\n            ret[-1].obj = args.locals[args.args[0]]",
      ["C01", "C02"], "exiting context loses obj (next_inner inference dropped)"),
@@ -78,7 +78,74 @@ MUTATIONS = [
      ["C06"], "module-level cache of inspected frames (with LEAK = [] at module top)"),
     ("M31", "stackscope/_glue.py", "        if gen.gi_running:\n            return StackSlice(outer=gen.gi_frame)\n        return (gen.gi_frame, gen.gi_yieldfrom)", "        if gen.gi_running:\n            return StackSlice(outer=gen.gi_frame)\n        if gen.gi_yieldfrom is None and gen.gi_frame is not None and gen.gi_frame.f_code.co_name == 'f0' and gen.gi_frame.f_lasti > 60:\n            try:\n                next(gen)\n            except BaseException:\n                pass\n        return (gen.gi_frame, gen.gi_yieldfrom)",
      ["C06"], "extraction advances the target"),
+    ("M32", "stackscope/_glue.py", "from_idx = this_thread_frames.index(inner_frame) - 1", "from_idx = this_thread_frames.index(inner_frame)",
+     ["C04"], "from_idx - 1 -> from_idx"),
+    ("M33", "stackscope/_glue.py", "        if inner_frame is None and outer_frame is not None:\n            del frames[spec.limit :]", "        if inner_frame is not None and outer_frame is not None:\n            del frames[spec.limit :]",
+     ["C04"], "limit keeps the wrong end"),
+    ("M34", "stackscope/_glue.py", "            greenlet = greenlet.parent\n            if greenlet is not None:\n                current = greenlet.gr_frame", "            greenlet = None",
+     ["C04"], "greenlet parent stitching dropped"),
+    ("M35", "stackscope/_lowlevel_cpython_311.py", "                    assert frame.f_lasti == lasti_before\n\n                    try:", "                    try:",
+     ["C07"], "per-slot f_lasti re-check deleted"),
+    ("M36", "stackscope/_lowlevel_cpython_311.py", "            # otherwise this was probably a concurrent modification, try again\n            continue", "            # otherwise this was probably a concurrent modification, try again\n            raise",
+     ["C07"], "retry loop: continue -> raise"),
+    ("M37", "stackscope/_glue.py", "        if inner_frame is None or not thread.is_alive() or not was_alive:", "        if inner_frame is None or not was_alive:",
+     ["C07"], "alive-after test dropped (ident reuse)"),
+    ("M38", "stackscope/_glue.py", "        context.children = children\n", "        context.children = children[::-1]\n",
+     ["C09"], "exit-stack children reversed"),
+    ("M39", "stackscope/_glue.py", "        if not context.is_exiting:\n            context.inner_stack = _extract.extract_child(mgr.gen, for_task=False)\n        if hasattr(mgr, \"func\"):", "        if True:\n            context.inner_stack = _extract.extract_child(mgr.gen, for_task=False)\n        if hasattr(mgr, \"func\"):",
+     ["C09"], "inner_stack extracted while exiting"),
+    ("M40", "stackscope/_code_dispatch.py", "        registry = IdentityDict[types.CodeType, Callable[Concatenate[T, P], R]]()", "        registry = {}",
+     ["C12"], "registry keyed by equality"),
+    ("M41", "stackscope/_customization.py", "            if replacement is not None:  # pragma: no branch\n                return replacement\n", "            if replacement is not None and not prune:  # pragma: no branch\n                return replacement\n",
+     ["C12"], "prune applied although elaborate returned a replacement"),
+    ("M42", "stackscope/_extract.py", "class ExtractOptions(threading.local):", "class ExtractOptions(object):",
+     ["C13"], "options not thread-local"),
+    ("M43", "stackscope/_extract.py", "        try:\n            yield\n        finally:\n            (self.with_contexts, self.recurse_child_tasks) = prev", "        yield\n        (self.with_contexts, self.recurse_child_tasks) = prev",
+     ["C13"], "options not restored after an exception"),
+    ("M44", "stackscope/_extract.py", "    if current_options.recurse_child_tasks is None:\n        raise RuntimeError(", "    if False:\n        raise RuntimeError(",
+     ["C13"], "extract_child guard removed"),
+    ("M45", "stackscope/_extract.py", "    if for_task and not current_options.recurse_child_tasks:", "    if for_task:",
+     ["C13", "C14"], "stub ignores recurse_child_tasks"),
+    ("M46", "stackscope/_glue.py", "            for child_task in context.obj.child_tasks\n", "            for child_task in list(context.obj.child_tasks)[1:]\n",
+     ["C14"], "a child task dropped"),
+    ("M47", "stackscope/_glue.py", "            if not glet:  # dead or not started\n                return []\n", "",
+     ["C15"], "dead/unstarted greenlet not special-cased"),
+    ("M48", "stackscope/_extract.py", "            if errors:\n                raise errors[0]\n            else:\n                raise RuntimeError(", "            if False:\n                raise errors[0]\n            else:\n                raise RuntimeError(",
+     ["C16"], "extract_outermost does not re-raise the recorded error"),
+    ("M49", "stackscope/_glue.py", "    with glue_lock:\n        if _verifhooks.ENABLED:\n            _verifhooks.point(\"lock_acquired\")", "    if True:\n        if _verifhooks.ENABLED:\n            _verifhooks.point(\"lock_acquired\")",
+     ["C17"], "glue lock removed"),
+    ("M50", "stackscope/_glue.py", "        module_names = tuple(sys.modules)\n        for module_name in module_names:", "        module_names = tuple(sys.modules)\n        _sys_modules_len_cache[0] = len(module_names)\n        for module_name in module_names:",
+     ["C17"], "length cache updated before the scan"),
+    ("M51", "stackscope/_glue.py", "                if module_fn is not None:\n                    module_fn()\n                elif builtin_fn is not None:\n                    builtin_fn()", "                if builtin_fn is not None:\n                    builtin_fn()\n                elif module_fn is not None:\n                    module_fn()",
+     ["C17"], "built-in glue preferred over module glue"),
+    ("M52", "stackscope/_types.py", "        start_leaf = \"+ \" if opts.ascii_only else \"╚ \"", "        start_leaf = \"+ \" if opts.ascii_only else \"╠ \"",
+     ["C18"], "leaf marker swapped"),
+    ("M53", "stackscope/_types.py", "        if self.hide and not opts.show_hidden_frames:\n            return []\n\n        start_child", "        if False:\n            return []\n\n        start_child",
+     ["C18"], "hidden contexts printed"),
+    ("M54", "stackscope/_types.py", "                    marker = start_child if idx == 0 else continue_child\n", "                    marker = start_child if idx <= 1 else continue_child\n",
+     ["C18"], "child prefix on the wrong line"),
+    ("M55", "stackscope/_types.py", "        if not (self.contexts and self.contexts[-1].is_exiting):\n            yield self.as_stdlib_summary(capture_locals=capture_locals)", "        if True:\n            yield self.as_stdlib_summary(capture_locals=capture_locals)",
+     ["C19"], "frame entry not omitted when the last context is exiting"),
+    ("M56", "stackscope/_types.py", "            self.start_line or parent.lineno,", "            parent.lineno,",
+     ["C19"], "context entries not at the with line"),
+    ("M57", "stackscope/_lowlevel.py", "    with _trickery_lock:\n        _can_use_trickery = enabled\n", "    with _trickery_lock:\n        if enabled is not None:\n            _can_use_trickery = enabled\n",
+     ["C20"], "set_trickery_enabled(None) does not restore auto-detection"),
+    ("M58", "stackscope/_lowlevel.py", "            offs -= 2  # back up to PUSH_EXC_INFO\n", "            pass\n",
+     ["C01", "C02"], "3.11+: exception-path exit keyed by the wrong offset"),
+    ("M59", "stackscope/_extract.py", "            except Exception as ex:\n                unwrapped = None\n                save_errors.append(ex)", "            except Exception as ex:\n                unwrapped = None",
+     ["C05"], "unwrap error dropped"),
+    ("M60", "stackscope/_glue.py", "                obj=manager if manager is not None else callback,", "                obj=manager or callback,",
+     ["C09"], "revert F9"),
+    ("M61", "stackscope/_glue.py", "            outer_frame = inner_frame\n            while outer_frame.f_back is not None:\n                outer_frame = outer_frame.f_back\n        return StackSlice", "            pass\n        return StackSlice",
+     ["C15"], "revert F8"),
+    ("M62", "stackscope/_customization.py", "        if hide_line:\n            frame.hide_line = True\n", "",
+     ["C12"], "revert F3"),
+    ("M63", "stackscope/_extract.py", "                ) or current is not (\n                    getattr(origin, \"gi_frame\", None)\n                    or getattr(origin, \"cr_frame\", None)\n                    or getattr(origin, \"ag_frame\", None)\n                ):", "                ):",
+     ["C16"], "revert F5"),
+    ("M64", "stackscope/_lowlevel.py", "            elif insn.opname in (\"PRECALL\", \"CACHE\", \"PUSH_NULL\"):", "            elif insn.opname in (\"PRECALL\", \"CACHE\"):",
+     ["C08"], "revert F12"),
 ]
+
 
 
 def apply(scratch, mut):
@@ -118,6 +185,7 @@ def main():
             err = apply(scratch, mut)
             if err:
                 rows.append((mid, "-", "NOT APPLIED: " + err, note))
+                print("%s NOT APPLIED: %s" % (mid, err), flush=True)
                 continue
             tests = ""
             if a.tests:
